@@ -29,8 +29,8 @@ from vlib.core import enc_rat, enc_ratlist, enc_bool, enc_csr, dec_ratlist, Tool
 RULE = ('plumbing: random array / list / dict / None seeds (in-range, out-of-range, empty dict, wrong length) for '
         'get_values, stack_values, get_adjacency_values (values, values_row, values_col in every combination, also values '
         'together with values_row / values_col) x which in {None, probs, labels}; block construction: random rectangular / '
-        'square matrices <= 4x4 with unsorted indices, duplicate entries (some cancelling), stored zeros, float / int / bool '
-        'data, csr / csc / coo / dense containers, empty matrices; _split_vars of the 6 base classes on random vectors / '
+        'square matrices <= 4x4 with unsorted indices, duplicate entries (some cancelling), stored zeros, float / int data (bool: '
+        'stored zeros, no duplicates), csr / csc / coo / dense containers, empty matrices; _split_vars of the 6 base classes on random vectors / '
         'matrices; relation: exhaustive 0/1 biadjacency matrices up to 2x3 / 3x2 (quick: sampled) and random weighted '
         'rectangular / square+force_bipartite matrices up to 6x6 (float / int / bool, csr / unsorted csr / csc / dense) x '
         'seed placements (none; row only, column only, both; dict, array, list; suffixed keywords, unsuffixed keyword for the '
@@ -208,8 +208,13 @@ def _raw_csr(rng, nr, nc, dtype):
             data.append(rng.choice([1, 1, 2, 3, 0, -1, 0.5] if dtype == 'float64' else ([1, 1, 2, 3, 0, -1] if dtype == 'int64'
                                                                                        else [True, True, False])))
         indptr.append(len(indices))
-    return sparse.csr_matrix((np.array(data, dtype=dtype), np.array(indices, dtype=np.int32), np.array(indptr, dtype=np.int32)),
-                             shape=(nr, nc))
+    m = sparse.csr_matrix((np.array(data, dtype=dtype), np.array(indices, dtype=np.int32), np.array(indptr, dtype=np.int32)),
+                          shape=(nr, nc))
+    if dtype == 'bool':
+        # scipy adds duplicate entries of a boolean matrix with `or`, the model with `+` (2 != 1 would change the symmetry
+        # test): boolean matrices are generated without duplicates (stored False entries stay)
+        m.sum_duplicates()
+    return m
 
 
 def _mdesc(m):
